@@ -162,14 +162,17 @@ Lemma handle_dec c te i t q st :
 Proof.
   unfold handle. destruct (decide c st) as [d rest]. cbn [fst snd].
   destruct (d_err d); [split; reflexivity|].
-  destruct (_ <=? _); split; reflexivity.
+  destruct (_ <=? _); [destruct (_ <=? _)|]; split; reflexivity.
 Qed.
 
 Lemma handle_issue c te i t q st : o_t_issue (fst (handle c te i t q st)) = t.
 Proof.
   unfold handle. destruct (decide c st) as [d rest].
-  destruct (d_err d); [reflexivity|]. destruct (_ <=? _); reflexivity.
+  destruct (d_err d); [reflexivity|]. destruct (_ <=? _); [destruct (_ <=? _)|]; reflexivity.
 Qed.
+
+Lemma q_lat_nonneg q : 0 <= q_lat q.
+Proof. unfold q_lat. apply Z.le_max_l. Qed.
 
 Lemma handle_error_skips_inner c te i t q st :
   let o := fst (handle c te i t q st) in
@@ -180,27 +183,32 @@ Proof.
   unfold handle. destruct (decide c st) as [d rest]. cbn zeta.
   destruct (d_err d) eqn:E; cbn [fst o_dec].
   - intros _. repeat split.
-  - destruct (_ <=? _); cbn [fst o_dec]; intros HH; rewrite E in HH; discriminate.
+  - destruct (_ <=? _); [destruct (_ <=? _)|]; cbn [fst o_dec]; intros HH; rewrite E in HH; discriminate.
 Qed.
 
 (* what a request that is not failed does: the inner service is called exactly at
-   t + injected latency (if the run lasts that long) and its result comes back unchanged *)
+   t + injected latency (if the run lasts that long) and its result comes back unchanged
+   when the inner service answers, q_lat q later *)
 Lemma handle_pass c te i t q st :
   let o := fst (handle c te i t q st) in
   d_err (o_dec o) = false ->
   let lat := match d_delay (o_dec o) with Some x => x | None => 0 end in
   o_ev_err o = 0 /\
-  (t + lat <= te ->
-   o_inner o = true /\ o_t_inner o = t + lat /\ o_t_done o = t + lat /\
-   o_res_kind o = (if q_ik q =? 0 then 0 else 1) /\ o_res_val o = q_iv q) /\
-  (te < t + lat -> o_inner o = false /\ o_res_kind o = -1).
+  (t + lat <= te -> o_inner o = true /\ o_t_inner o = t + lat) /\
+  (t + lat + q_lat q <= te ->
+   o_t_done o = t + lat + q_lat q /\ o_res_kind o = q_kind q /\ o_res_val o = q_iv q) /\
+  (te < t + lat + q_lat q -> o_res_kind o = -1) /\
+  (te < t + lat -> o_inner o = false).
 Proof.
+  pose proof (q_lat_nonneg q) as Hq.
   unfold handle. destruct (decide c st) as [d rest]. cbn zeta.
   destruct (d_err d) eqn:E; cbn [fst o_dec]; [intros HH; rewrite E in HH; discriminate|].
-  destruct (_ <=? _) eqn:L; cbn [fst o_dec o_ev_err o_inner o_t_inner o_t_done o_res_kind o_res_val];
+  destruct (_ <=? _) eqn:L; [destruct (_ + _ + _ <=? _) eqn:L2|];
+    cbn [fst o_dec o_ev_err o_inner o_t_inner o_t_done o_res_kind o_res_val];
     intros _; (split; [reflexivity|]).
-  - apply Z.leb_le in L. split; [intros _; repeat split|intros; lia].
-  - apply Z.leb_gt in L. split; [intros; lia|intros _; split; reflexivity].
+  - apply Z.leb_le in L, L2. repeat split; intros; try reflexivity; lia.
+  - apply Z.leb_le in L. apply Z.leb_gt in L2. repeat split; intros; try reflexivity; lia.
+  - apply Z.leb_gt in L. repeat split; intros; try reflexivity; lia.
 Qed.
 
 (* ---- runs ---- *)
@@ -300,9 +308,23 @@ Definition transparent (te : Z) (q : request) (o : outcome) : Prop :=
   d_kinds (o_dec o) = [] /\ d_bits (o_dec o) = [] /\ d_err (o_dec o) = false /\
   d_delay (o_dec o) = None /\
   o_ev_err o = 0 /\ o_ev_lat o = 0 /\ o_ev_pass o = 1 /\
-  (o_t_issue o <= te ->
-   o_inner o = true /\ o_t_inner o = o_t_issue o /\ o_t_done o = o_t_issue o /\
-   o_res_kind o = (if q_ik q =? 0 then 0 else 1) /\ o_res_val o = q_iv q).
+  (o_t_issue o <= te -> o_inner o = true /\ o_t_inner o = o_t_issue o) /\
+  (o_t_issue o + q_lat q <= te ->
+   o_t_done o = o_t_issue o + q_lat q /\ o_res_kind o = q_kind q /\ o_res_val o = q_iv q).
+
+Lemma handle_transparent c te i t q st :
+  erate c = Some 0 -> lrate c = Some 0 ->
+  transparent te q (fst (handle c te i t q st)) /\ snd (handle c te i t q st) = st.
+Proof.
+  intros He Hl. pose proof (q_lat_nonneg q) as Hq.
+  unfold handle. rewrite (decide_zero c st He Hl). cbn [d_err d_delay].
+  replace (t + 0) with t by lia.
+  destruct (t <=? te) eqn:L; [destruct (t + q_lat q <=? te) eqn:L2|]; cbn [fst snd];
+    (split; [|reflexivity]); unfold transparent; cbn.
+  - apply Z.leb_le in L, L2. repeat split.
+  - apply Z.leb_le in L. apply Z.leb_gt in L2. repeat split; intros; lia.
+  - apply Z.leb_gt in L. repeat split; intros; lia.
+Qed.
 
 Lemma transparent_at_zero c te i t qs st :
   erate c = Some 0 -> lrate c = Some 0 ->
@@ -310,14 +332,11 @@ Lemma transparent_at_zero c te i t qs st :
 Proof.
   intros He Hl. revert i t. induction qs as [|q qs IH]; intros i t; cbn [run].
   - split; [constructor|reflexivity].
-  - unfold handle. rewrite (decide_zero c st He Hl). cbn [d_err d_delay].
+  - pose proof (handle_transparent c te i (t + Z.max 0 (q_gap q)) q st He Hl) as [Ht Hs].
+    destruct (handle c te i (t + Z.max 0 (q_gap q)) q st) as [o st']. cbn [fst snd] in Ht, Hs. subst st'.
     specialize (IH (i + 1) (t + Z.max 0 (q_gap q))).
-    replace (t + Z.max 0 (q_gap q) + 0) with (t + Z.max 0 (q_gap q)) by lia.
-    destruct (_ <=? _) eqn:L;
-      destruct (run c te (i + 1) (t + Z.max 0 (q_gap q)) qs st) as [os st'];
-      cbn [fst snd] in *; destruct IH as [IH ->]; (split; [|reflexivity]); constructor; try exact IH.
-    + unfold transparent; cbn. repeat split.
-    + apply Z.leb_gt in L. unfold transparent; cbn. repeat split; intros; lia.
+    destruct (run c te (i + 1) (t + Z.max 0 (q_gap q)) qs st) as [os st'].
+    cbn [fst snd] in *. destruct IH as [IH ->]. split; [|reflexivity]. constructor; assumption.
 Qed.
 
 (* ---- error rate 1 ---- *)
@@ -360,6 +379,31 @@ Proof.
 Qed.
 
 (* ---- latency bounds at run level ---- *)
+Lemma handle_latency_bounds c te i t q st d :
+  let o := fst (handle c te i t q st) in
+  d_delay (o_dec o) = Some d ->
+  (forall z, d_range (o_dec o) = Some z -> min_ms c <= z <= max_ms c) ->
+  Z.min (min_ms c) (max_ms c) <= d <= Z.max (min_ms c) (max_ms c) /\
+  d_err (o_dec o) = false /\
+  (o_inner o = true -> o_t_inner o = o_t_issue o + d) /\
+  (o_t_issue o + d <= te -> o_inner o = true).
+Proof.
+  cbn zeta. intros Hd Hr.
+  pose proof (handle_dec c te i t q st) as [Hdec _].
+  rewrite Hdec in Hd, Hr. split; [exact (latency_bounds c st d Hd Hr)|].
+  assert (He : d_err (o_dec (fst (handle c te i t q st))) = false).
+  { rewrite Hdec. destruct (d_err (fst (decide c st))) eqn:E; [|reflexivity].
+    apply err_excludes_latency in E. destruct E as [E _]. congruence. }
+  split; [exact He|].
+  pose proof (handle_pass c te i t q st He) as (_ & P1 & _ & _ & P2).
+  rewrite Hdec, Hd in P1, P2. rewrite handle_issue.
+  split.
+  - intros Hi. destruct (Z_le_gt_dec (t + d) te) as [L|L].
+    + apply P1 in L. tauto.
+    + assert (L' : te < t + d) by lia. apply P2 in L'. congruence.
+  - intros L. apply P1 in L. tauto.
+Qed.
+
 Lemma run_latency_bounds c te i t qs st o d :
   In o (fst (run c te i t qs st)) ->
   d_delay (o_dec o) = Some d ->
@@ -369,20 +413,8 @@ Lemma run_latency_bounds c te i t qs st o d :
   (o_inner o = true -> o_t_inner o = o_t_issue o + d) /\
   (o_t_issue o + d <= te -> o_inner o = true).
 Proof.
-  intros Hin Hd Hr. destruct (run_In _ _ _ _ _ _ _ Hin) as (i' & t' & q & st' & _ & ->).
-  pose proof (handle_dec c te i' t' q st') as [Hdec _].
-  rewrite Hdec in Hd, Hr. split; [exact (latency_bounds c st' d Hd Hr)|].
-  assert (He : d_err (o_dec (fst (handle c te i' t' q st'))) = false).
-  { rewrite Hdec. destruct (d_err (fst (decide c st'))) eqn:E; [|reflexivity].
-    apply err_excludes_latency in E. destruct E as [E _]. congruence. }
-  split; [exact He|].
-  pose proof (handle_pass c te i' t' q st' He) as (_ & P1 & P2).
-  rewrite Hdec, Hd in P1, P2. rewrite handle_issue.
-  split.
-  - intros Hi. destruct (Z_le_gt_dec (t' + d) te) as [L|L].
-    + apply P1 in L. tauto.
-    + assert (L' : te < t' + d) by lia. apply P2 in L'. destruct L' as [L' _]. congruence.
-  - intros L. apply P1 in L. tauto.
+  intros Hin. destruct (run_In _ _ _ _ _ _ _ Hin) as (i' & t' & q & st' & _ & ->).
+  apply handle_latency_bounds.
 Qed.
 
 Lemma run_draw_discipline c te i t qs st o :
@@ -413,14 +445,341 @@ Proof.
   repeat constructor; (eexists; split; [vm_compute; reflexivity|]; vm_compute; split; [discriminate|reflexivity]).
 Qed.
 
-Lemma config_truncation inj eb lb min_us max_us :
-  min_ms (mk_config inj eb lb min_us max_us) = min_us / 1000 /\
-  max_ms (mk_config inj eb lb min_us max_us) = max_us / 1000 /\
-  (forall v, erate (mk_config inj eb lb min_us max_us) = Some v -> 0 <= v <= f64_one) /\
-  (forall v, lrate (mk_config inj eb lb min_us max_us) = Some v -> 0 <= v <= f64_one).
+Lemma config_truncation flags eb lb minv maxv :
+  min_ms (mk_config flags eb lb minv maxv) = dur_ms minv /\
+  max_ms (mk_config flags eb lb minv maxv) = dur_ms maxv /\
+  (forall v, erate (mk_config flags eb lb minv maxv) = Some v -> 0 <= v <= f64_one) /\
+  (forall v, lrate (mk_config flags eb lb minv maxv) = Some v -> 0 <= v <= f64_one).
 Proof.
   assert (H1 : 0 < f64_one) by (vm_compute; reflexivity).
-  repeat split; try (cbn [lrate mk_config] in *; eapply clamp01_range; eassumption);
-    cbn [erate mk_config] in *; destruct (inj =? 0);
-    try (eapply clamp01_range; eassumption); injection H as <-; lia.
+  split; [reflexivity|]. split; [reflexivity|]. split; intros v Hv.
+  - cbn [erate mk_config] in Hv. destruct (flags mod 2 =? 0).
+    + injection Hv as <-. lia.
+    + eapply clamp01_range; eassumption.
+  - cbn [lrate mk_config] in Hv. eapply clamp01_range; eassumption.
 Qed.
+
+(* the script's bound encoding: microseconds below 2^64, nanoseconds above; the service's
+   `u64::try_from(as_millis()).unwrap_or(u64::MAX)` is the exact truncation to whole ms as long
+   as that is below 2^64, and u64::MAX ms beyond *)
+Lemma dur_floor_nonneg v : 0 <= dur_floor_ms v.
+Proof.
+  unfold dur_floor_ms. destruct (Z.ltb_spec v (2 ^ 64)).
+  - apply Z.div_pos; lia.
+  - apply Z.div_pos; lia.
+Qed.
+
+Lemma dur_ms_micros v : 0 <= v < 2 ^ 64 -> dur_ms v = v / 1000.
+Proof.
+  intros H. unfold dur_ms, dur_floor_ms, u64_max.
+  replace (v <? 2 ^ 64) with true by (symmetry; apply Z.ltb_lt; lia).
+  replace (Z.max 0 v) with v by lia.
+  apply Z.min_l. assert (v / 1000 < 2 ^ 64) by (apply Z.div_lt_upper_bound; lia). lia.
+Qed.
+
+Lemma dur_ms_nowrap v : dur_floor_ms v < 2 ^ 64 -> dur_ms v = dur_floor_ms v.
+Proof. intros H. unfold dur_ms, u64_max. apply Z.min_l. lia. Qed.
+
+Lemma dur_ms_saturates v : 2 ^ 64 - 1 <= dur_floor_ms v -> dur_ms v = 2 ^ 64 - 1.
+Proof. intros H. unfold dur_ms, u64_max. apply Z.min_r. exact H. Qed.
+
+Lemma dur_ms_range v : 0 <= dur_ms v <= 2 ^ 64 - 1.
+Proof. pose proof (dur_floor_nonneg v). unfold dur_ms, u64_max. lia. Qed.
+
+Lemma dur_ms_sat_range v :
+  (2 ^ 64 - 1 <= dur_floor_ms v -> dur_ms v = 2 ^ 64 - 1) /\ 0 <= dur_ms v <= 2 ^ 64 - 1.
+Proof. split; [apply dur_ms_saturates|apply dur_ms_range]. Qed.
+
+(* ---- runs as lists of first polls ---- *)
+Lemma run_polls_decisions c te ps st :
+  map (fun po => o_dec (snd po)) (fst (run_polls c te ps st)) = fst (decisions c (length ps) st) /\
+  snd (run_polls c te ps st) = snd (decisions c (length ps) st) /\
+  map fst (fst (run_polls c te ps st)) = ps.
+Proof.
+  revert st. induction ps as [|p ps IH]; intros st; cbn [run_polls decisions length].
+  - repeat split.
+  - pose proof (handle_dec c te (p_idx p) (p_poll p) (p_req p) st) as [Hd Hs].
+    destruct (handle c te (p_idx p) (p_poll p) (p_req p) st) as [o st'].
+    destruct (decide c st) as [d st2]. cbn [fst snd] in Hd, Hs. subst st' d.
+    specialize (IH st2).
+    destruct (run_polls c te ps st2) as [os st3].
+    destruct (decisions c (length ps) st2) as [ds st4]. cbn [fst snd map] in *.
+    destruct IH as (-> & -> & ->). repeat split.
+Qed.
+
+(* the decisions and the draws consumed depend on the configuration, the draw stream and the
+   NUMBER of first polls only *)
+Lemma deterministic_polls c te te' ps ps' st :
+  length ps = length ps' ->
+  map (fun po => o_dec (snd po)) (fst (run_polls c te ps st)) =
+  map (fun po => o_dec (snd po)) (fst (run_polls c te' ps' st)) /\
+  snd (run_polls c te ps st) = snd (run_polls c te' ps' st) /\
+  map (fun po => o_dec (snd po)) (fst (run_polls c te ps st)) = fst (decisions c (length ps) st).
+Proof.
+  intros H.
+  pose proof (run_polls_decisions c te ps st) as (A & B & _).
+  pose proof (run_polls_decisions c te' ps' st) as (A' & B' & _).
+  rewrite A, B, A', B', H. repeat split.
+Qed.
+
+(* the k-th first poll receives the k-th decision of the stream *)
+Lemma map_pair_combine {A B C D} (f : A -> C) (g : B -> D) (l : list (A * B)) :
+  map (fun ab => (f (fst ab), g (snd ab))) l = combine (map f (map fst l)) (map (fun ab => g (snd ab)) l).
+Proof. induction l as [|ab l IH]; cbn [map combine]; [reflexivity|]. rewrite IH. reflexivity. Qed.
+
+Lemma decisions_follow_first_polls c te ps st :
+  map (fun po => (p_idx (fst po), o_dec (snd po))) (fst (run_polls c te ps st)) =
+  combine (map p_idx ps) (fst (decisions c (length ps) st)).
+Proof.
+  pose proof (run_polls_decisions c te ps st) as (A & _ & C).
+  rewrite map_pair_combine, A, C. reflexivity.
+Qed.
+
+(* two instances fed the stream of the same seed make equal decisions, first poll by first poll,
+   whatever [gen] (StdRng::seed_from_u64 followed by the draws) is *)
+Lemma seeded_lockstep (gen : Z -> list Z) c seed te te' ps ps' :
+  length ps = length ps' ->
+  map (fun po => o_dec (snd po)) (fst (run_polls c te ps (gen seed))) =
+  map (fun po => o_dec (snd po)) (fst (run_polls c te' ps' (gen seed))).
+Proof. intros H. apply (deterministic_polls c te te' ps ps' (gen seed) H). Qed.
+
+Lemma run_polls_app c te ps1 ps2 st :
+  run_polls c te (ps1 ++ ps2) st =
+  let (os1, st1) := run_polls c te ps1 st in
+  let (os2, st2) := run_polls c te ps2 st1 in
+  (os1 ++ os2, st2).
+Proof.
+  revert st. induction ps1 as [|p ps1 IH]; intros st; cbn [app run_polls].
+  - destruct (run_polls c te ps2 st); reflexivity.
+  - destruct (handle c te (p_idx p) (p_poll p) (p_req p) st) as [o st'].
+    rewrite IH. destruct (run_polls c te ps1 st') as [os1 st1].
+    destruct (run_polls c te ps2 st1) as [os2 st2]. reflexivity.
+Qed.
+
+Lemma run_polls_In c te ps st p o :
+  In (p, o) (fst (run_polls c te ps st)) ->
+  exists st', In p ps /\ o = fst (handle c te (p_idx p) (p_poll p) (p_req p) st').
+Proof.
+  revert st. induction ps as [|p0 ps IH]; intros st; cbn [run_polls].
+  - intros [].
+  - destruct (handle c te (p_idx p0) (p_poll p0) (p_req p0) st) as [o1 st'] eqn:Eh.
+    destruct (run_polls c te ps st') as [os st''] eqn:Er.
+    cbn [fst]. intros [Heq|Hin].
+    + injection Heq as <- <-. exists st. split; [left; reflexivity|]. rewrite Eh. reflexivity.
+    + specialize (IH st'). rewrite Er in IH. destruct (IH Hin) as (s' & Hq & ->).
+      exists s'. split; [right; exact Hq|reflexivity].
+Qed.
+
+Lemma error_skips_inner_polls c te ps st p o :
+  In (p, o) (fst (run_polls c te ps st)) ->
+  d_err (o_dec o) = true ->
+  o_inner o = false /\ o_t_inner o = -1 /\ o_res_kind o = 1 /\ o_res_val o = err_fn (p_idx p) /\
+  o_t_done o = o_t_issue o /\ o_t_issue o = p_poll p /\
+  d_delay (o_dec o) = None /\ o_ev_err o = 1 /\ o_ev_lat o = 0 /\ o_ev_pass o = 0.
+Proof.
+  intros Hin He. destruct (run_polls_In _ _ _ _ _ _ Hin) as (st' & _ & ->).
+  pose proof (handle_error_skips_inner c te (p_idx p) (p_poll p) (p_req p) st' He)
+    as (A & B & C & V & D & E & F & G).
+  pose proof (handle_dec c te (p_idx p) (p_poll p) (p_req p) st') as [Hd _].
+  rewrite Hd in He. apply err_excludes_latency in He. destruct He as [He _].
+  rewrite handle_issue. rewrite Hd. repeat split; assumption.
+Qed.
+
+Lemma transparent_at_zero_polls c te ps st :
+  erate c = Some 0 -> lrate c = Some 0 ->
+  Forall (fun po => transparent te (p_req (fst po)) (snd po) /\ o_t_issue (snd po) = p_poll (fst po))
+         (fst (run_polls c te ps st)) /\
+  snd (run_polls c te ps st) = st.
+Proof.
+  intros He Hl. induction ps as [|p ps IH]; cbn [run_polls].
+  - split; [constructor|reflexivity].
+  - pose proof (handle_transparent c te (p_idx p) (p_poll p) (p_req p) st He Hl) as [Ht Hs].
+    pose proof (handle_issue c te (p_idx p) (p_poll p) (p_req p) st) as Hi.
+    destruct (handle c te (p_idx p) (p_poll p) (p_req p) st) as [o st']. cbn [fst snd] in Ht, Hs, Hi. subst st'.
+    destruct (run_polls c te ps st) as [os st'].
+    cbn [fst snd] in *. destruct IH as [IH ->]. split; [|reflexivity].
+    constructor; [cbn [fst snd]; split; assumption|exact IH].
+Qed.
+
+Lemma always_fails_at_one_polls c te ps st :
+  custom c = true -> erate c = Some f64_one -> Forall unit_roll st ->
+  Forall (fun po => d_err (o_dec (snd po)) = true /\ o_inner (snd po) = false /\
+                    o_res_kind (snd po) = 1 /\ o_res_val (snd po) = err_fn (p_idx (fst po)) /\
+                    d_kinds (o_dec (snd po)) = [0]) (fst (run_polls c te ps st)).
+Proof.
+  intros Hc He. revert st. induction ps as [|p ps IH]; intros st Hs; cbn [run_polls].
+  - constructor.
+  - pose proof (decide_one c st Hc He Hs) as (D1 & D2 & D3).
+    pose proof (handle_dec c te (p_idx p) (p_poll p) (p_req p) st) as [Hd Hr].
+    pose proof (handle_error_skips_inner c te (p_idx p) (p_poll p) (p_req p) st) as Hskip.
+    destruct (handle c te (p_idx p) (p_poll p) (p_req p) st) as [o st'].
+    cbn [fst snd] in *. rewrite Hd in Hskip. specialize (Hskip D1).
+    subst st'. specialize (IH _ D3).
+    destruct (run_polls c te ps (snd (decide c st))) as [os st''].
+    cbn [fst] in *. constructor; [|exact IH]. cbn [fst snd].
+    rewrite Hd. destruct Hskip as (A & _ & B & V & _). repeat split; assumption.
+Qed.
+
+Lemma latency_bounds_polls c te ps st p o d :
+  In (p, o) (fst (run_polls c te ps st)) ->
+  d_delay (o_dec o) = Some d ->
+  (forall z, d_range (o_dec o) = Some z -> min_ms c <= z <= max_ms c) ->
+  Z.min (min_ms c) (max_ms c) <= d <= Z.max (min_ms c) (max_ms c) /\
+  d_err (o_dec o) = false /\
+  o_t_issue o = p_poll p /\
+  (o_inner o = true -> o_t_inner o = p_poll p + d) /\
+  (p_poll p + d <= te -> o_inner o = true).
+Proof.
+  intros Hin Hd Hr. destruct (run_polls_In _ _ _ _ _ _ Hin) as (st' & _ & ->).
+  pose proof (handle_latency_bounds c te (p_idx p) (p_poll p) (p_req p) st' d Hd Hr) as (A & B & C & D).
+  rewrite handle_issue in C, D. rewrite handle_issue. destruct A as [A1 A2]. repeat split; assumption.
+Qed.
+
+(* the property's clause with the TRUE bounds of the configured Durations, for ALL bounds.
+   fmin, fmax: the bounds truncated to whole ms (Duration::as_millis); the service saturates them
+   at u64::MAX ms, the largest delay Duration::from_millis can express. The injected delay lies
+   between the saturated bounds (either order); hence it never exceeds the larger true bound, it
+   is at least the smaller true bound unless that is beyond u64::MAX ms, and with
+   min_latency >= u64::MAX ms the delay is exactly u64::MAX ms. *)
+Lemma latency_bounds_true flags eb lb minv maxv te ps st p o d :
+  let c := mk_config flags eb lb minv maxv in
+  let fmin := dur_floor_ms minv in
+  let fmax := dur_floor_ms maxv in
+  let smin := Z.min fmin (2 ^ 64 - 1) in
+  let smax := Z.min fmax (2 ^ 64 - 1) in
+  In (p, o) (fst (run_polls c te ps st)) ->
+  d_delay (o_dec o) = Some d ->
+  (forall z, d_range (o_dec o) = Some z -> smin <= z <= smax) ->
+  Z.min smin smax <= d <= Z.max smin smax /\
+  d <= Z.max fmin fmax /\
+  Z.min (Z.min fmin fmax) (2 ^ 64 - 1) <= d /\
+  (fmin < 2 ^ 64 -> fmax < 2 ^ 64 -> Z.min fmin fmax <= d <= Z.max fmin fmax) /\
+  (2 ^ 64 - 1 <= fmin -> d = 2 ^ 64 - 1).
+Proof.
+  intros c fmin fmax smin smax Hin Hd Hr.
+  assert (Emin : min_ms c = smin) by reflexivity.
+  assert (Emax : max_ms c = smax) by reflexivity.
+  pose proof (latency_bounds_polls c te ps st p o d Hin Hd) as HB.
+  rewrite Emin, Emax in HB. specialize (HB Hr). destruct HB as (HB & _).
+  pose proof (draw_discipline c) as _.
+  assert (Hsat : 2 ^ 64 - 1 <= fmin -> d = 2 ^ 64 - 1).
+  { intros Hge.
+    destruct (run_polls_In _ _ _ _ _ _ Hin) as (st' & _ & ->).
+    pose proof (handle_dec c te (p_idx p) (p_poll p) (p_req p) st') as [Hdec _].
+    rewrite Hdec in Hd.
+    pose proof (draw_discipline c st') as K. unfold kinds_ok in K.
+    destruct K as (_ & _ & _ & _ & _ & _ & _ & K & _).
+    rewrite Emin, Emax in K. rewrite (K ltac:(subst smin smax; lia) d Hd). subst smin. lia. }
+  subst smin smax. repeat split; try lia; try exact Hsat.
+Qed.
+
+(* the reproducer of the defect fixed by 37727a1: min = 2^64 + 5 ms, max = 2^64 + 10 ms, latency
+   rate 1. Both bounds saturate, no range draw is made, the layer sleeps u64::MAX ms (before the
+   fix it slept 5..10 ms) *)
+Definition wrap_min := 2 ^ 64 + (2 ^ 64 + 5) * 1000000.
+Definition wrap_max := 2 ^ 64 + (2 ^ 64 + 10) * 1000000.
+Example ex_saturated_bounds :
+  let c := mk_config 0 0 4607182418800017408 wrap_min wrap_max in
+  let p := {| p_idx := 0; p_call := 0; p_poll := 0; p_req := {| q_gap := 0; q_ik := 0; q_iv := 100 |} |} in
+  min_ms c = 2 ^ 64 - 1 /\ max_ms c = 2 ^ 64 - 1 /\ 2 ^ 64 - 1 <= dur_floor_ms wrap_min /\
+  map (fun po => (d_kinds (o_dec (snd po)), d_delay (o_dec (snd po)), o_inner (snd po), o_res_kind (snd po)))
+      (fst (run_polls c 12 [p] [4584395605734499296; 18446744073709551615])) =
+  [([1; 2], Some (2 ^ 64 - 1), false, -1)].
+Proof. vm_compute. repeat split; discriminate. Qed.
+
+Lemma draw_discipline_polls c te ps st p o :
+  In (p, o) (fst (run_polls c te ps st)) -> kinds_ok c (o_dec o).
+Proof.
+  intros Hin. destruct (run_polls_In _ _ _ _ _ _ Hin) as (st' & _ & ->).
+  pose proof (handle_dec c te (p_idx p) (p_poll p) (p_req p) st') as [-> _]. apply draw_discipline.
+Qed.
+
+(* ---- the schedule: call() instants, first polls ---- *)
+Definition imm (i t : Z) (qs : list request) : list pev :=
+  map (fun p => at_poll (p_call p) p) (calls i t qs).
+
+(* [run] is [run_polls] on the schedule that polls every request as soon as it is created *)
+Lemma run_refines_polls c te i t qs st :
+  fst (run c te i t qs st) = map snd (fst (run_polls c te (imm i t qs) st)) /\
+  snd (run c te i t qs st) = snd (run_polls c te (imm i t qs) st).
+Proof.
+  revert i t st. induction qs as [|q qs IH]; intros i t st; cbn [run imm calls map run_polls].
+  - split; reflexivity.
+  - cbn [at_poll p_idx p_call p_poll p_req].
+    destruct (handle c te i (t + Z.max 0 (q_gap q)) q st) as [o st'].
+    specialize (IH (i + 1) (t + Z.max 0 (q_gap q)) st'). unfold imm in IH.
+    destruct (run c te (i + 1) (t + Z.max 0 (q_gap q)) qs st') as [os st''].
+    destruct (run_polls c te _ st') as [os' st3]. cbn [fst snd map] in *.
+    destruct IH as [-> ->]. split; reflexivity.
+Qed.
+
+Lemma q_mode_range q : 0 <= q_mode q < 4.
+Proof. unfold q_mode. apply Z.mod_pos_bound. lia. Qed.
+
+(* with every request polled at once the harness's discipline is the immediate schedule *)
+Lemma polls_immediate cs tl :
+  Forall (fun p => q_mode (p_req p) = 0) cs ->
+  polls cs [] tl = map (fun p => at_poll (p_call p) p) cs.
+Proof.
+  intros H. revert tl. induction H as [|p cs Hp _ IH]; intros tl; cbn [polls map]; [reflexivity|].
+  rewrite Hp. cbn [Z.eqb map app]. rewrite IH. reflexivity.
+Qed.
+
+Definition polled (p : pev) : bool := q_mode (p_req p) <? 2.
+
+(* a future that is dropped unpolled consumes nothing: the number of first polls, hence of
+   decisions taken from the stream, is the number of requests that are ever polled *)
+Lemma polls_length cs defer tl :
+  length (polls cs defer tl) = (length defer + length (filter polled cs))%nat.
+Proof.
+  revert defer tl. induction cs as [|p cs IH]; intros defer tl; cbn [polls filter].
+  - rewrite map_length. cbn. lia.
+  - pose proof (q_mode_range (p_req p)) as Hm. unfold polled at 1.
+    destruct (Z.eqb_spec (q_mode (p_req p)) 0) as [E0|E0];
+      [|destruct (Z.eqb_spec (q_mode (p_req p)) 1) as [E1|E1]];
+      destruct (Z.ltb_spec (q_mode (p_req p)) 2) as [E2|E2]; try lia;
+      cbn [length]; rewrite ?app_length, ?map_length, IH; cbn [length]; lia.
+Qed.
+
+Lemma unpolled_consume_nothing c te cs st :
+  map (fun po => o_dec (snd po)) (fst (run_polls c te (polls cs [] 0) st)) =
+    fst (decisions c (length (filter polled cs)) st) /\
+  snd (run_polls c te (polls cs [] 0) st) = snd (decisions c (length (filter polled cs)) st).
+Proof.
+  pose proof (run_polls_decisions c te (polls cs [] 0) st) as (A & B & _).
+  rewrite polls_length in A, B. cbn [length plus] in A, B. split; assumption.
+Qed.
+
+(* every first poll of the schedule is a request of the script, polled at or after its creation *)
+Lemma calls_mono i t qs p : 0 <= t -> In p (calls i t qs) -> t <= p_call p.
+Proof.
+  revert i t. induction qs as [|q qs IH]; intros i t Ht; cbn [calls]; [intros []|].
+  intros [<-|Hin]; cbn [p_call]; [lia|].
+  apply IH in Hin; lia.
+Qed.
+
+(* what run_script executes *)
+Lemma script_runs_polls s :
+  run_script s =
+  let c := mk_config (zn s 0) (zn s 1) (zn s 2) (zn s 3) (zn s 4) in
+  let n := Z.to_nat (zn s 7) in
+  let qs := requests_of s n in
+  let t_end := fold_left (fun a q => a + Z.max 0 (q_gap q)) qs 0 + Z.max 0 (zn s 6) in
+  let cs := calls 0 0 qs in
+  let os := fst (run_polls c t_end (polls cs [] 0) (skipn (8 + 3 * n) s)) in
+  [3] ++ flat_map (enc_call os) cs ++
+  [Z.of_nat (length (flat_map (fun po => d_bits (o_dec (snd po))) os))] ++
+  flat_map (fun po => d_bits (o_dec (snd po))) os.
+Proof.
+  unfold run_script. cbn zeta.
+  destruct (run_polls _ _ _ _) as [os rest]. reflexivity.
+Qed.
+
+(* a script whose first polls are out of call order: requests 0 and 3 are deferred, 2 is dropped *)
+Example ex_poll_order :
+  map p_idx (polls (calls 0 0 [ {| q_gap := 0; q_ik := 2; q_iv := 0 |}; {| q_gap := 1; q_ik := 1; q_iv := 0 |};
+                                {| q_gap := 0; q_ik := 4; q_iv := 0 |}; {| q_gap := 2; q_ik := 18; q_iv := 0 |};
+                                {| q_gap := 1; q_ik := 3; q_iv := 0 |} ]) [] 0) = [1; 0; 4; 3].
+Proof. vm_compute. reflexivity. Qed.
+Example ex_nowrap : dur_floor_ms 2000 < 2 ^ 64 /\ dur_floor_ms (2 ^ 64 + 4294967297000000) < 2 ^ 64.
+Proof. vm_compute. split; reflexivity. Qed.
